@@ -23,6 +23,17 @@ func VerifRepoGC(s Store, repoStr string) error {
 		return err
 	}
 	repo.Done()
+	// the callers of gc() (ticker, cache pruning, Close) never collect a read-only store
+	switch r := verifUnwrapRepo(repo).(type) {
+	case *dirRepo:
+		if *r.conf.Storage.ReadOnly {
+			return nil
+		}
+	case *memRepo:
+		if *r.conf.Storage.ReadOnly {
+			return nil
+		}
+	}
 	return verifUnwrapRepo(repo).gc()
 }
 
@@ -30,8 +41,14 @@ func VerifRepoGC(s Store, repoStr string) error {
 func VerifStoreGC(s Store, cur, prev time.Time) error {
 	switch st := verifUnwrapStore(s).(type) {
 	case *dir:
+		if *st.conf.Storage.ReadOnly {
+			return nil // the ticker is not started for a read-only store
+		}
 		return st.gc(cur, prev)
 	case *mem:
+		if *st.conf.Storage.ReadOnly {
+			return nil
+		}
 		return st.gc(cur, prev)
 	}
 	return fmt.Errorf("unknown store type %T", s)
